@@ -181,7 +181,30 @@ let () =
            @ [WLvcNew (zi id, bi u8)])
     | ["rc_cut"; id; t] -> run "rc_cut" [WLvcCut (zi id, bytes_of_hex t)]
     | ["rc_utf8"; id; t] -> run "rc_utf8" [WLvcUTF8 (zi id, bytes_of_hex t)]
-    | ["rc_pump"; id] -> run "rc_pump" [WLvcPump (zi id)]
+    | ["rc_pump"; id] -> run "rc_pump" [WLvcPump (zi id, nat_of_int 0)]
+    | ["rc_pump"; id; n] ->
+        (* n FramebufferUpdate messages were among those the client digested (told by the script) *)
+        let k = int_of_string n in
+        (match !wld with
+         | None -> Printf.printf "?? no screen\n"
+         | Some w ->
+             (try
+                let (w', evs) = step1 w (WLvcPump (zi id, nat_of_int k)) in
+                let gf = List.init k (fun _ -> Printf.sprintf "GF:%s" id) in
+                let s = w'.w_srv in
+                Printf.printf "rc_pump ev=[%s] cl=[%s] own=%s out=[%s] lk=[%s]\n"
+                  (String.concat ";" (let (gd, rest) = List.partition (fun e -> match e with WLvcGaveUp _ -> true | _ -> false) evs in
+                                      List.map wev_s rest @ gf @ List.map wev_s gd))
+                  (String.concat ";" (List.map cl_s (List.filter (fun c -> not c.c_closed) s.s_clients)))
+                  (match s.s_owner with Some h -> string_of_int (int_of_z h) | None -> "-")
+                  (out_s w') (lk_s w');
+                wld := Some (unlock_all w')
+              with Oracle_miss what -> Printf.printf "?? oracle %s\n" what))
+    | ["rc_fur"; id] ->
+        (* SendFramebufferUpdateRequest(client, 0, 0, width, height, FALSE) *)
+        (match !wld with
+         | Some w -> run "rc_fur" [WLvcFur (zi id, z_of_int 0, z_of_int 0, z_of_int 0, w.w_srv.s_cfg.g_w, w.w_srv.s_cfg.g_h)]
+         | None -> Printf.printf "?? no screen\n")
     | ["rc_sched"; id; sc] ->
         run "rc_sched" [WLvcSched (zi id, List.map (fun x -> z_of_int (int_of_string x)) (String.split_on_char ',' sc))]
     | _ -> Printf.printf "?? %s\n" line)
